@@ -260,6 +260,10 @@ def fixed_corpus():
     out.append(Def([L('regex', '(?-u)\\x1b[\\x40-\\x7e]|\\xff[\\x40-\\x7e]'), L('regex', '(?-u)(?:\\x00a|\\xffa|ma)+z'),
                     L('regex', '(?-u)(?:\\x7fq|\\x80q|\\xfeq)[0-9]'), L('regex', '[a-l]+')], utf8=False, origin='fixed:merge-bytes'))
     out.append(Def([L('regex', '(?:é|ü|a)x+'), L('regex', '(?:if|of|af)[0-9]'), L('regex', '(?:中|丿|b)(?:y|z)'), L('skip', ' ')], origin='fixed:merge-str'))
+    # subpatterns with Unicode-sensitive constructs (must behave alike in str and byte mode)
+    out.append(Def([L('regex', '[a-z]+'), L('regex', '"(?&inner)*"'), L('regex', '#(?&any)'), L('skip', '(?&ws)+')],
+                   subpatterns=[('inner', '[^"]'), ('any', '.'), ('ws', '\\s')], origin='fixed:subpatterns'))
+    out.append(Def([L('regex', '(?&letter)+'), L('token', '=')], subpatterns=[('letter', '[a-zα-ωé]')], origin='fixed:subpatterns2'))
     # stack probes: single-character skips, long tokens
     out.append(Def([L('skip', 'x'), L('regex', 'a+'), L('token', 'b'), L('regex', 'c[a-z]*d')], origin='fixed:stack'))
     # nested repetitions (exponential for backtrackers)
